@@ -12,6 +12,15 @@ OP_NOTE = ("Trusted: TLC; the harness store (harness/modelstore) as an implement
            "implementation traces are TLC-simulated behaviours plus seeded random histories, not all histories.")
 
 CLAIMS = {
+    "C12": dict(level="model_checking", ref="DESIGN.md §3 C12, §4",
+                text="spec/Codec.tla: (merge) for each of the eight claims types, every choice of <= 2 (quick) / <= 4 (thorough) registered claims set and custom "
+                     "claims present among the probed names (all colliding with registered names) plus one non-colliding custom claim: registered wins, custom "
+                     "survives where the registered field is unset and omitempty, nothing is invented, Marshal(Unmarshal(Marshal x)) = Marshal x; (decode) field "
+                     "kind x JSON form table: documented tolerant forms -> value, every other form -> zero or error, never panic / invented value; (seal) plaintext "
+                     "class x key relation: opens exactly under the same key, fresh IV. TLC checks the tables; each case is executed on the real json codec / AES "
+                     "sealing and the observed projection is judged by the monitor CodecTrace.",
+                technique="TLA+ decision-table spec model-checked with TLC; cases executed on the real codec; observed outcomes judged by the TLA+ monitor",
+                note="Sealing and byte-level codec fidelity are observed on class representatives (DESIGN.md §4); the table part is exhaustive within CodecDesign_*.cfg."),
     "C11": dict(level="exploration", ref="DESIGN.md §3 C11, §4",
                 text="spec/AuthResponse.tla gives the channel table (response mode x response type x kind of response -> query | fragment | form), the parameter "
                      "set of each kind and the exhaustive case set (kind x mode x redirect-URI shape x state / session_state strings over a class alphabet "
